@@ -750,6 +750,61 @@ def probe_or_weights(f):
     return weights_predictable(f)
 
 
+def nonces_aliased(f):
+    """C13 (a nonce used twice inside one proof): on the real crates, with the external RNG stuck, the library's proof differs from the proof of the
+    documented derivation (refimpl::reference_prove_documented reproduces the unchanged library byte for byte) and EQUALS the proof obtained when
+    the nonces named by the finding are identified with each other. detail: alias = groups of names that the model found to be one symbol"""
+    c = f.detail.get('replay_cfg') or f.cfg
+    n, x = c['n'], c.get('x', 1)
+    m0 = c['members'][0]
+    groups = f.detail.get('alias') or []
+    pairs = []
+    order = lambda nm: (0 if nm.startswith('alpha') else 2 if nm in ('r', 's') or nm.startswith('d_') or nm.startswith('eta') else 1,
+                        int((nm.split('_') + ['0', '0'])[1]) if nm[0] == 'd' and nm[1] in 'LR' else 0, 0 if nm.startswith('dL') or nm == 'r' else 1 if nm.startswith('dR') or nm == 's' else 2, nm)
+    for g in groups:
+        g = sorted(g, key=order)
+        for later in g[1:]:
+            pairs.append([later, g[0]])
+    found = []
+    for rng in ('zero', 'const'):
+        mem = {'m': m0.get('m', 1), 'cap': m0.get('cap', m0.get('m', 1)), 'seeded': m0.get('seeded', False), 'promises': m0.get('promises'), 'rng': rng}
+        o = run_replay({'scenario': 'batch', 'n': n, 'x': x, 'members': [mem], 'documented_prover': True, 'alias': pairs}, 1)
+        if 'crash' in o or not o.get('documented'):
+            return None, o
+        d = o['documented'][0]
+        if d.get('documented_equal') is False and (d.get('aliased_equal') is True):
+            found.append({'external_rng': rng, 'the proof equals the documented derivation with these nonces identified': pairs[:6], 'first differing proof element': d.get('first_differing_element')})
+            break
+    if found:
+        return True, found
+    if any('r' in g and 's' in g for g in groups):
+        # the two final masking scalars can be opened from the responses of a 1-bit proof (no folding rounds): r1 = r + a*e, s1 = s + b*e
+        for rng in ('zero', 'const'):
+            o = run_replay({'scenario': 'batch', 'n': 1, 'x': x, 'members': [{'m': 1, 'cap': 1, 'rng': rng, 'seeded': True}], 'attacks': True}, 1)
+            om = (o.get('opened_final_masks') or [None])[0] if 'crash' not in o else None
+            if om and om[0] == om[1]:
+                return True, [{'external_rng': rng, 'the two final masking scalars opened from a 1-bit proof are equal': om}]
+    return nonces_repeat(f)
+
+
+def prover_deviates(f):
+    """C13/C14: with a stuck external RNG the library's proof is not the one the documented nonce derivation gives (every nonce = next output of the
+    witness-keyed transcript RNG rebuilt after each prover message; seed nonces from Blake2b), for some member of the finding's configuration"""
+    c = f.detail.get('replay_cfg') or f.cfg
+    n, x = c['n'], c.get('x', 1)
+    m0 = c['members'][0]
+    for rng in ('zero', 'const'):
+        for seeded in sorted({bool(m0.get('seeded', False)), False}):
+            mem = {'m': m0.get('m', 1), 'cap': m0.get('cap', m0.get('m', 1)), 'seeded': seeded and m0.get('m', 1) == 1, 'rng': rng}
+            o = run_replay({'scenario': 'batch', 'n': n, 'x': x, 'members': [mem], 'documented_prover': True}, 1)
+            if 'crash' in o or not o.get('documented'):
+                return None, o
+            d = o['documented'][0]
+            if d.get('documented_equal') is False:
+                return True, {'external_rng': rng, 'member': mem, 'first differing proof element': d.get('first_differing_element')}
+    return False, None
+
+
 def nonce_hedge_broken(f):
     """C13/C14: on the real crates with a stuck external RNG (i) two runs that differ in witness / context / statement share the blinding of a prover
     message, or (ii) an observer reproduces alpha or (r, s, eta) from public data alone, or (iii) two 1-bit seeded proofs under different contexts
